@@ -1,0 +1,99 @@
+//go:build verif
+// +build verif
+
+// Exported wrappers used only by the verification harness (build tag "verif", add-only).
+
+package hotkey
+
+import (
+	"fmt"
+	"math/rand"
+	"strings"
+)
+
+// VerifDump walks the frequency list forwards (next / item next) and backwards (prev / item
+// prev) and returns both renderings plus a consistency verdict of the links.
+func (c *Counter) VerifDump() (forward, backward string, consistent bool) {
+	c.mu.Lock()
+	defer c.mu.Unlock()
+	consistent = true
+	var fw []string
+	var last *freqNode
+	n := 0
+	for f := c.freqHead; f != nil; f = f.next {
+		if f.prev != last {
+			consistent = false
+		}
+		var ks []string
+		var lastItem *itemNode
+		for it := f.itemHead; it != nil; it = it.next {
+			if it.prev != lastItem || it.freqNode != f {
+				consistent = false
+			}
+			if c.items[it.key] != it {
+				consistent = false
+			}
+			ks = append(ks, it.key)
+			lastItem = it
+			n++
+			if n > 100000 {
+				return "cycle", "cycle", false
+			}
+		}
+		if f.itemTail != lastItem {
+			consistent = false
+		}
+		fw = append(fw, fmt.Sprintf("%d:%s", f.freq, strings.Join(ks, ",")))
+		last = f
+	}
+	if n != len(c.items) {
+		consistent = false
+	}
+	var bw []string
+	for f := last; f != nil; f = f.prev {
+		var ks []string
+		for it := f.itemTail; it != nil; it = it.prev {
+			ks = append(ks, it.key)
+		}
+		bw = append(bw, fmt.Sprintf("%d:%s", f.freq, strings.Join(ks, ",")))
+	}
+	return strings.Join(fw, " "), strings.Join(bw, " "), consistent
+}
+
+// VerifSetNow replaces the minute clock and returns a restore func.
+func VerifSetNow(f func() int64) func() {
+	old := nowInMinute
+	nowInMinute = f
+	return func() { nowInMinute = old }
+}
+
+// VerifCollect runs one collection round.
+func (c *Collector) VerifCollect() { c.collect() }
+
+// VerifEvictStale runs one stale-eviction round.
+func (c *Collector) VerifEvictStale() { c.evictStale() }
+
+type verifZeroSource struct{}
+
+func (verifZeroSource) Int63() int64 { return 0 }
+func (verifZeroSource) Seed(int64)   {}
+
+// VerifReport returns the hot key report as (name, value, last update minute) triples; with
+// linear true, counters created from now on always increment (a deterministic random source).
+func (c *Collector) VerifReport() []string {
+	var out []string
+	for _, k := range c.HotKeys() {
+		out = append(out, fmt.Sprintf("%s=%d@%d", k.Name, k.Counter.Value(), k.Counter.LastUpdateTimeInMinute()))
+	}
+	return out
+}
+
+// VerifLinearise gives every counter of the current report a random source that always
+// increments, so that ReaptIncr(n) adds exactly n (capped at 255).
+func (c *Collector) VerifLinearise() {
+	c.rwmu.Lock()
+	defer c.rwmu.Unlock()
+	for _, k := range c.keys {
+		k.Counter.rnd = rand.New(verifZeroSource{})
+	}
+}
